@@ -107,6 +107,17 @@ def _content(t):
     return t
 
 
+def same_record_already_there(events) -> bool:
+    """The path has found the incoming record EQUAL (all fields) to a record the converter holds: merging it adds
+    nothing and every table already has its names - skipping merge and re-index is the identity."""
+    for g in events:
+        if g.kind == "guard" and g.b is True and op(g.a) == "cmp" and g.a[1] == "==" and any(is_incoming(x) for x in (g.a[2], g.a[3])):
+            other = g.a[3] if is_incoming(g.a[2]) else g.a[2]
+            if any(op(x) == "attr" and x[2] == "records" for x in subterms(other)):
+                return True
+    return False
+
+
 def is_incoming(t) -> bool:
     """The record add_record was given, or a normalised copy of it (``record.model_copy(update=...)``) that takes
     its place."""
@@ -256,6 +267,8 @@ def d3(cx: Cx, ob: Ob) -> None:
                     merged = any((ev.kind in ("expr", "bind") and self_call(ev.a if ev.kind == "expr" else ev.b, me, MERGE)) or (ev.kind == "guard" and self_call(ev.a, me, MERGE)) for ev in p.events)
                     raised = p.out is not None and p.out[0] == "raise"
                     got = "raise" if raised else "merge" if merged else "append" if appended else "nothing"
+                    if got == "nothing" and want == "merge" and same_record_already_there(p.events):
+                        continue
                     if got == want or (want, got, n >= 2, mg) in seen_bad:
                         continue
                     seen_bad.add((want, got, n >= 2, mg))
@@ -472,6 +485,9 @@ def check_add_record_pairing(cx: Cx, ob: Ob) -> None:
                         witness=" -> ".join(conds),
                         detail=f"unindexed:{how}",
                     )
+            if top and normal and not changed and same_record_already_there(p.events):
+                ob.site(f"{fn.where} {fn.qualname}", "returns without merging when the incoming record equals the one already held")
+                continue
             if top and normal and not changed:
                 conds = [("" if g.b else "not ") + show(g.a)[:60] for g in p.events if g.kind == "guard"]
                 line = p.out[2] if p.out else fn.node.end_lineno
@@ -720,6 +736,17 @@ def check_match_record(cx: Cx, ob: Ob) -> None:
                 by_tables = [g for g in gs if any(op(x) == "attr" and x[1] == me and x[2] in TABLES for x in subterms(g.a))]
                 if by_param or by_tables:
                     excused.append((by_param or by_tables)[0])
+                    continue
+                # two matches already: add_record tells 0 / 1 / several apart and nothing else, so the rest of the scan
+                # cannot change the outcome
+                def _several(g) -> bool:
+                    a_ = g.a
+                    if g.b is True and op(a_) == "cmp" and op(a_[2]) == "call" and a_[2][1] == ("builtin", "len") and is_const(a_[3]) and isinstance(a_[3][1], int):
+                        return (a_[1] == ">" and a_[3][1] >= 1) or (a_[1] == ">=" and a_[3][1] >= 2) or (a_[1] == "==" and a_[3][1] >= 2)
+                    return False
+
+                if p.out[0] == "break" and any(_several(g) for g in gs):
+                    ob.site(f"{fn.where} {fn.qualname}", "the scan stops once two records have matched (the outcome is decided)")
                     continue
                 return p.events[-1].line if p.events else lp.line
             for ev in p.events:
